@@ -65,15 +65,15 @@ func (c03suite) Gen(r *rand.Rand, sessions int) []string {
 	spec := loadSpecRoles()
 	var out []string
 	peer := map[string]string{"cp": "cs", "cs": "cp"}
+	// sessions >= 1000: the routing rows only (handler set / not set / only this profile's handler), every feature (C18)
+	routing := sessions >= 1000
 	for _, ver := range []string{"R16", "R201"} {
 		feats := allFeatures(ver)
 		for _, role := range []string{"cp", "cs"} {
 			for _, f := range feats {
 				insw := contains(spec[ver][peer[role]], f)
 				// sampling density: `sessions` is a percentage of the full matrix
-				if r.Intn(100) >= sessions {
-					continue
-				}
+				sampled := routing || r.Intn(100) < sessions
 				b := func(x bool) string {
 					if x {
 						return "1"
@@ -83,10 +83,22 @@ func (c03suite) Gen(r *rand.Rand, sessions int) []string {
 				pre := fmt.Sprintf("a %s %s %s known=1", ver, role, f)
 				outcomes := []string{"valid", "invalid required", "invalid max", "nil", "error"}
 				outcomes = append(outcomes, "ocpperr "+validCodes[r.Intn(len(validCodes))], "ocpperr "+pick(r, "Bogus", "notsupported", "GenericError "))
+				if routing {
+					outcomes = []string{"valid"}
+				}
+				if !sampled {
+					// the routing rows are never sampled away (every subset of handlers x every feature)
+					outcomes = nil
+				}
 				for _, o := range outcomes {
 					out = append(out, fmt.Sprintf("%s handler=1 insw=%s write=1 %s", pre, b(insw), strings.ReplaceAll(o, "GenericError ", "GenericError_")))
 				}
 				out = append(out, fmt.Sprintf("%s handler=0 insw=%s write=1 valid", pre, b(insw)))
+				// variant c: only the handler of this feature's profile is registered (every subset of handlers)
+				out = append(out, fmt.Sprintf("c%s handler=1 insw=%s write=1 valid", pre[1:], b(insw)))
+				if routing || !sampled {
+					continue
+				}
 				if r.Intn(3) == 0 {
 					out = append(out, fmt.Sprintf("b%s handler=1 insw=%s write=1 %s", pre[1:], b(insw), pick(r, "nil", "nil", "error", "invalid required", "ocpperr Bogus", "valid")))
 				}
@@ -95,6 +107,18 @@ func (c03suite) Gen(r *rand.Rand, sessions int) []string {
 				}
 			}
 			out = append(out, fmt.Sprintf("a %s %s NoSuchFeature known=0 handler=1 insw=0 write=1 valid", ver, role))
+			// directed, not sampled: the unread-Errors() variant for every outcome on one feature this role receives
+			for _, f := range feats {
+				if routing {
+					break
+				}
+				if contains(spec[ver][peer[role]], f) {
+					for _, o := range []string{"nil", "error", "invalid required", "ocpperr Bogus", "valid"} {
+						out = append(out, fmt.Sprintf("b %s %s %s known=1 handler=1 insw=1 write=1 %s", ver, role, f, o))
+					}
+					break
+				}
+			}
 		}
 	}
 	return out
@@ -108,7 +132,7 @@ func (c03suite) Run(ops []string, emit func(string)) {
 }
 
 func c03Exchange(r *rand.Rand, f []string) string {
-	if len(f) < 9 || (f[0] != "a" && f[0] != "b") {
+	if len(f) < 9 || (f[0] != "a" && f[0] != "b" && f[0] != "c") {
 		return "bad-op"
 	}
 	// variant b: the application asked for the Errors() channel but does not read it, and the same CALL was
@@ -136,6 +160,22 @@ func c03Exchange(r *rand.Rand, f []string) string {
 		opts.skipHandlers = map[string]bool{}
 		for _, s := range setters {
 			if prof[s] == pname {
+				opts.skipHandlers[s] = true
+			}
+		}
+	}
+	if f[0] == "c" && feat != nil {
+		// register the handler of this feature's profile only
+		setters, prof := stubSetters(ver, role)
+		pname := ""
+		for _, p := range profileList(ver) {
+			if _, ok := p.Features[feature]; ok {
+				pname = p.Name
+			}
+		}
+		opts.skipHandlers = map[string]bool{}
+		for _, s := range setters {
+			if prof[s] != pname {
 				opts.skipHandlers[s] = true
 			}
 		}
